@@ -400,9 +400,13 @@ class PyCParser(ParserInterface):
         """True is node is a (non-empty) loop statement."""
         return (isinstance(node, (self.While, self.For, self.DoWhile))
                 and hasattr(node, 'stmt') and node.stmt
-                and not isinstance(node.stmt, self.EmptyStatement)
-                and not (isinstance(node.stmt, self.Compound)
-                         and not node.stmt.block_items))
+                and not self._is_empty(node.stmt))
+
+    def _is_empty(self, node: ParserInterface.Node) -> bool:
+        """True if node is `;` or a block of nothing but such statements."""
+        return (isinstance(node, self.EmptyStatement) or
+                (isinstance(node, self.Compound) and
+                 all(self._is_empty(c) for c in (node.block_items or []))))
 
     def to_c(self, node: Any, compact: bool = False) -> str:
         """Translate node back to C code."""
